@@ -598,8 +598,16 @@ read_dns_withq(int dns_fd, int tun_fd, char *buf, int buflen, struct query *q)
 			int thispartlen, dataspace, datanew;
 
 			while (1) {
-				thispartlen = strlen(buf);
-				thispartlen = MIN(thispartlen, buftotal-bufoffset);
+				char *partend;
+
+				if (bufoffset >= buftotal)
+					break;
+				/* buf holds buftotal valid bytes and need not
+				   be NUL terminated (record types can differ
+				   between question and answer) */
+				partend = memchr(buf + bufoffset, '\0', buftotal - bufoffset);
+				thispartlen = partend ? (int) (partend - (buf + bufoffset)) :
+					buftotal - bufoffset;
 				dataspace = sizeof(data) - dataoffset;
 				if (thispartlen <= 0 || dataspace <= 0)
 					break;
